@@ -117,6 +117,27 @@ Theorem once_value_stable : forall cands sched more v,
   o_val (oreach cands sched) = Some v -> o_val (oreach cands (sched ++ more)) = Some v.
 Proof. exact once_stable. Qed.
 
+(* Pooled codec writers: for every sequence of check-outs and returns (a
+   return whose final flush FAILED included), no encoder is in the pool twice
+   or in the pool while checked out, so two responses in flight never hold the
+   same encoder.  Data-race freedom of the encoder itself is the race test. *)
+Theorem pool_holds_each_encoder_once : forall ops,
+  NoDup (p_pool (prun false ops pinit) ++ map snd (p_held (prun false ops pinit))).
+Proof. intros ops. apply (PInv_run ops pinit PInv_init). Qed.
+
+Theorem responses_in_flight_never_share_an_encoder : forall ops r1 r2 e,
+  In (r1, e) (p_held (prun false ops pinit)) -> In (r2, e) (p_held (prun false ops pinit)) ->
+  NoDup (map fst (p_held (prun false ops pinit))) -> r1 = r2.
+Proof. exact pool_exclusive. Qed.
+
+(* the variant in which a failing Close returns the encoder twice: after one
+   aborted response two later overlapping responses share encoder 0 *)
+Theorem double_put_refuted :
+  let s := prun true [CGet 0; CPut 0 true; CGet 1; CGet 2] pinit in
+  p_held s = [(2, 0); (1, 0)]
+  /\ hrun true hinit [HAbort 1 10; HOverlap 1 [7; 8]%N] = [[]; [RBad; RBad]].
+Proof. vm_compute. auto. Qed.
+
 (* The driver events the harness forces are instances of schedules, and the
    decidable form of the property holds on every model run. *)
 Theorem coarse_is_fine : forall c evs s, exists sched, run_evs c evs s = run c sched s.
